@@ -28,7 +28,9 @@ NONASCII_SHEBANG = {'utf-8': u'#!/opt/pyth\u00f6n/\u20ac\u0152/bin/python', 'lat
 SHEBANG = {'plain': '#!/usr/bin/env python', 'with-args': '#!/usr/bin/python -O -u  ', 'non-ascii': u'#!/opt/pyth\u00f6n/bin/python',
            'hash-only': '# !/usr/bin/python', 'space-before': ' #!/usr/bin/python',
            'with-formfeed': '#!/usr/bin/env -S python\x0c-O', 'with-x85': u'#!/usr/bin/python \x85 x', 'with-linesep': u'#!/usr/bin/python \u2028x \x1c y',
-           'with-cookie': '#!/usr/bin/python # -*- coding: latin-1 -*-'}
+           'with-cookie': '#!/usr/bin/python # -*- coding: latin-1 -*-',
+           # in latin-1 / cp1252 / iso-8859-15 these two characters are the bytes C3 A9, which are also the UTF-8 spelling of another character
+           'lookalike': u'#!/opt/caf\u00c3\u00a9/bin/python'}
 
 # body programs (LF, unicode); each must be encodable in the codecs it is used with
 BODIES = [
